@@ -27,6 +27,7 @@ void __real_freelocale(locale_t);
 /* ---- live set: open addressing, tombstones, storage from __real_malloc ---- */
 static uintptr_t *tab;
 static size_t tab_cap, tab_used, tab_live;
+static long peak_live; /* highest number of simultaneously live blocks since the last verif_alloc_peak_reset() */
 #define TOMB ((uintptr_t)1)
 
 static size_t hptr(uintptr_t p) { return (size_t)((p >> 4) * 0x9e3779b97f4a7c15ULL >> 20); }
@@ -63,6 +64,8 @@ static void set_add(void *p)
 		tab_used++;
 	tab[h] = (uintptr_t)p;
 	tab_live++;
+	if ((long)tab_live > peak_live)
+		peak_live = (long)tab_live;
 }
 static int set_del(void *p)
 {
@@ -93,6 +96,8 @@ static long locales_live;
 static const char *last_site = "";
 
 long verif_alloc_live(void) { return (long)tab_live; }
+long verif_alloc_peak(void) { return peak_live; }
+void verif_alloc_peak_reset(void) { peak_live = (long)tab_live; }
 long verif_locale_live(void) { return locales_live; }
 void verif_alloc_arm(long k, long k2)
 {
